@@ -8,7 +8,7 @@ namespace ReadPath
 def trunc (g : Cfg) (x : Addr × List UInt8) : Addr × List UInt8 := (x.1, x.2.take g.rbs)
 
 def inflightD (s : St) : List (Addr × List UInt8) := match s.task with
-  | .rd (.data (some a) b) => [(a, b)]
+  | .rd (.data (some a) b) _ => [(a, b)]
   | _ => []
 
 def ansD : Ans → List (Addr × List UInt8)
@@ -23,7 +23,7 @@ def cb (e : Addr × Nat × List UInt8) : Option (Nat × List UInt8) := if e.2.2.
 structure DelD (g : Cfg) (s : St) : Prop where
   order : g.udp = true → deqPairs s ++ inflightD s ++ s.k.dq.map (trunc g) = s.sentD.map (trunc g)
   calls : g.udp = true → s.dlv = s.deqD.filterMap cb
-  src : g.udp = true → ∀ b, s.task ≠ .rd (.data none b)
+  src : g.udp = true → ∀ b h, s.task ≠ .rd (.data none b) h
 
 theorem consume_deq (g : Cfg) (s : St) (a : Ans) (hn : ∀ b, a ≠ .data none b) :
     deqPairs (consume g s a).2 = deqPairs s ++ ansD a ∧
@@ -55,28 +55,28 @@ theorem doRead_dgrams (g : Cfg) (s : St) (hu : g.udp = true) :
   | bytes hc hi hu' hq => rw [hu] at hu'; cases hu'
   | _ => simp [ansD]
 
-theorem taskRead_dgrams (g : Cfg) (s : St) (hu : g.udp = true) :
-    deqPairs (taskRead g s) ++ inflightD (taskRead g s) ++ (taskRead g s).k.dq.map (trunc g) = deqPairs s ++ s.k.dq.map (trunc g) ∧
-    (taskRead g s).sentD = s.sentD ∧ (taskRead g s).dlv = s.dlv ∧ (taskRead g s).deqD = s.deqD ∧
-    ∀ b, (taskRead g s).task ≠ .rd (.data none b) := by
+theorem taskRead_dgrams (g : Cfg) (s : St) (bh : Bool) (hu : g.udp = true) :
+    deqPairs (taskRead g s bh) ++ inflightD (taskRead g s bh) ++ (taskRead g s bh).k.dq.map (trunc g) = deqPairs s ++ s.k.dq.map (trunc g) ∧
+    (taskRead g s bh).sentD = s.sentD ∧ (taskRead g s bh).dlv = s.dlv ∧ (taskRead g s bh).deqD = s.deqD ∧
+    ∀ b h, (taskRead g s bh).task ≠ .rd (.data none b) h := by
   unfold taskRead
   split
   · simp [setTask, deqPairs, inflightD]
   · obtain ⟨f1, f2, f3, f4, f5, f6, f7, f8, f9, f10, f11, _⟩ := doRead_frame g s
     obtain ⟨hb, hn⟩ := doRead_dgrams g s hu
     simp only [setTask]
-    refine ⟨?_, f10, f8, f11, fun b h => ?_⟩
-    · have hi : inflightD { (doRead g s).2 with task := TS.rd (doRead g s).1 } = ansD (doRead g s).1 := by
+    refine ⟨?_, f10, f8, f11, fun b h' h => ?_⟩
+    · have hi : inflightD { (doRead g s).2 with task := TS.rd (doRead g s).1 bh } = ansD (doRead g s).1 := by
         simp only [inflightD, ansD]
         cases (doRead g s).1 with
         | data src b => cases src <;> rfl
         | _ => rfl
-      have hd : deqPairs { (doRead g s).2 with task := TS.rd (doRead g s).1 } = deqPairs s := by
+      have hd : deqPairs { (doRead g s).2 with task := TS.rd (doRead g s).1 bh } = deqPairs s := by
         simp only [deqPairs, f11]
       rw [hi, hd, List.append_assoc, hb]
-    · simp only [TS.rd.injEq] at h; exact hn b h
+    · simp only [TS.rd.injEq] at h; exact hn b h.1
 
-theorem deld_init (g : Cfg) : DelD g init := ⟨fun _ => rfl, fun _ => rfl, fun _ b h => by simp [init] at h⟩
+theorem deld_init (g : Cfg) : DelD g init := ⟨fun _ => rfl, fun _ => rfl, fun _ b h' h => by simp [init] at h⟩
 
 theorem deld_step (g : Cfg) (s s' : St) (a : Act) (hc : Core g s) (hd : DelD g s) (hs : step g s a = some s') :
     DelD g s' := by
@@ -111,11 +111,11 @@ theorem deld_step (g : Cfg) (s s' : St) (a : Act) (hc : Core g s) (hd : DelD g s
       rcases ht with h | ⟨h1, h2⟩
       · simp only [inflightD, h]
       · simp only [inflightD, h1, h2]
-    refine ⟨fun _ => ?_, fun _ => by rw [r9, r12]; exact hcalls, fun _ b h => ?_⟩
+    refine ⟨fun _ => ?_, fun _ => by rw [r9, r12]; exact hcalls, fun _ b hx h => ?_⟩
     · simp only [deqPairs] at ho ⊢
       rw [hi, r2, r11, r12]; exact ho
     · rcases ht with h' | ⟨_, h'⟩
-      · rw [h'] at h; exact hsrc b h
+      · rw [h'] at h; exact hsrc b hx h
       · rw [h'] at h; cases h
   | pstep =>
     simp only [step] at hs
@@ -136,14 +136,14 @@ theorem deld_step (g : Cfg) (s s' : St) (a : Act) (hc : Core g s) (hd : DelD g s
       have hi0 : inflightD s = [] := by simp only [inflightD, htn]
       have hi2 : inflightD (consume g (doRead g s).2 (doRead g s).1).2 = [] := by simp only [inflightD, k4, f5, htn]
       have hd0 : deqPairs (doRead g s).2 = deqPairs s := by simp only [deqPairs, f11]
-      refine ⟨fun _ => ?_, fun _ => ?_, fun _ b h => ?_⟩
+      refine ⟨fun _ => ?_, fun _ => ?_, fun _ b hx h => ?_⟩
       · show deqPairs (consume g (doRead g s).2 (doRead g s).1).2 ++ inflightD (consume g (doRead g s).2 (doRead g s).1).2 ++
           (consume g (doRead g s).2 (doRead g s).1).2.k.dq.map (trunc g) = (consume g (doRead g s).2 (doRead g s).1).2.sentD.map (trunc g)
         rw [c1, hi2, k1, k9, f10, hd0, ← ho, hi0]
         simp only [List.append_nil, List.append_assoc]
         rw [hb]
       · exact c2 (by rw [f8, f11]; exact hcalls)
-      · have : (consume g (doRead g s).2 (doRead g s).1).2.task = .rd (.data none b) := h
+      · have : (consume g (doRead g s).2 (doRead g s).1).2.task = .rd (.data none b) hx := h
         rw [k4, f5, htn] at this; cases this
     · next fl hps =>
       cases hs
@@ -154,14 +154,14 @@ theorem deld_step (g : Cfg) (s s' : St) (a : Act) (hc : Core g s) (hd : DelD g s
         repeat' split
         all_goals simp
       obtain ⟨h1, h2, h3, h4, h5⟩ := this
-      refine ⟨fun _ => ?_, fun _ => ?_, fun _ b h => ?_⟩
+      refine ⟨fun _ => ?_, fun _ => ?_, fun _ b hx h => ?_⟩
       · show deqPairs (finish g s fl) ++ inflightD (finish g s fl) ++ (finish g s fl).k.dq.map (trunc g) = (finish g s fl).sentD.map (trunc g)
         simp only [deqPairs, inflightD, h2, h3, h4, h5] at ho ⊢
         exact ho
       · show (finish g s fl).dlv = (finish g s fl).deqD.filterMap cb
         rw [h1, h5]; exact hcalls
-      · have : (finish g s fl).task = .rd (.data none b) := h
-        rw [h2] at this; exact hsrc b this
+      · have : (finish g s fl).task = .rd (.data none b) hx := h
+        rw [h2] at this; exact hsrc b hx this
   | tstep =>
     simp only [step] at hs
     unfold tstep at hs
@@ -169,13 +169,13 @@ theorem deld_step (g : Cfg) (s s' : St) (a : Act) (hc : Core g s) (hd : DelD g s
     · cases hs
     · next ht =>
       cases hs
-      obtain ⟨h1, h2, h3, h4, h5⟩ := taskRead_dgrams g s hu
+      obtain ⟨h1, h2, h3, h4, h5⟩ := taskRead_dgrams g s s.hup hu
       refine ⟨fun _ => ?_, fun _ => by rw [h3, h4]; exact hcalls, fun _ => h5⟩
       rw [h1, h2, ← ho]; simp [inflightD, ht]
-    · next a ht =>
+    · next a hbt ht =>
       cases hs
       obtain ⟨k1, k2, k3, k4, k5, k6, k7, k8, k9, _⟩ := consume_frame g s a
-      have hn : ∀ b, a ≠ .data none b := fun b h => hsrc b (by rw [ht, h])
+      have hn : ∀ b, a ≠ .data none b := fun b h => hsrc b hbt (by rw [ht, h])
       obtain ⟨c1, c2⟩ := consume_deq g s a hn
       have c2 := c2 hcalls
       have hia : inflightD s = ansD a := by
@@ -187,11 +187,11 @@ theorem deld_step (g : Cfg) (s s' : St) (a : Act) (hc : Core g s) (hd : DelD g s
         rw [c1, k1, k9, ← ho, hia]
       cases hnx : (consume g s a).1 with
       | again =>
-        obtain ⟨h1, h2, h3, h4, h5⟩ := taskRead_dgrams g (consume g s a).2 hu
+        obtain ⟨h1, h2, h3, h4, h5⟩ := taskRead_dgrams g (consume g s a).2 hbt hu
         simp only [taskNext]
         exact ⟨fun _ => by rw [h1, h2]; exact hgoal, fun _ => by rw [h3, h4]; exact c2, fun _ => h5⟩
       | dead =>
-        refine ⟨fun _ => ?_, fun _ => c2, fun _ b h => by cases h⟩
+        refine ⟨fun _ => ?_, fun _ => c2, fun _ b hx h => by cases h⟩
         show deqPairs (consume g s a).2 ++ [] ++ (consume g s a).2.k.dq.map (trunc g) = (consume g s a).2.sentD.map (trunc g)
         rw [List.append_nil]; exact hgoal
       | brk =>
@@ -199,23 +199,33 @@ theorem deld_step (g : Cfg) (s s' : St) (a : Act) (hc : Core g s) (hd : DelD g s
         have hr : ∀ t : St, deqPairs (rearm t) = deqPairs t ∧ (rearm t).k.dq = t.k.dq ∧ (rearm t).sentD = t.sentD ∧
             (rearm t).dlv = t.dlv ∧ (rearm t).deqD = t.deqD := by
           intro t; unfold rearm; split <;> simp [deqPairs]
+        have hcl : ∀ t : St, deqPairs (closeHang t) = deqPairs t ∧ (closeHang t).k.dq = t.k.dq ∧ (closeHang t).sentD = t.sentD ∧
+            (closeHang t).dlv = t.dlv ∧ (closeHang t).deqD = t.deqD := by
+          intro t; unfold closeHang; split <;> simp [deqPairs]
+        split
+        · obtain ⟨r1, r2, r3, r4, r5⟩ := hcl (consume g s a).2
+          refine ⟨fun _ => ?_, fun _ => ?_, fun _ b hx h => by cases h⟩
+          · show deqPairs (closeHang (consume g s a).2) ++ [] ++ (closeHang (consume g s a).2).k.dq.map (trunc g) = (closeHang (consume g s a).2).sentD.map (trunc g)
+            rw [List.append_nil, r1, r2, r3]; exact hgoal
+          · show (closeHang (consume g s a).2).dlv = (closeHang (consume g s a).2).deqD.filterMap cb
+            rw [r4, r5]; exact c2
         split
         · obtain ⟨r1, r2, r3, r4, r5⟩ := hr (consume g s a).2
-          refine ⟨fun _ => ?_, fun _ => ?_, fun _ b h => by cases h⟩
+          refine ⟨fun _ => ?_, fun _ => ?_, fun _ b hx h => by cases h⟩
           · show deqPairs (rearm (consume g s a).2) ++ [] ++ (rearm (consume g s a).2).k.dq.map (trunc g) = (rearm (consume g s a).2).sentD.map (trunc g)
             rw [List.append_nil, r1, r2, r3]; exact hgoal
           · show (rearm (consume g s a).2).dlv = (rearm (consume g s a).2).deqD.filterMap cb
             rw [r4, r5]; exact c2
         · split
-          · refine ⟨fun _ => ?_, fun _ => c2, fun _ b h => by cases h⟩
+          · refine ⟨fun _ => ?_, fun _ => c2, fun _ b hx h => by cases h⟩
             show deqPairs (consume g s a).2 ++ [] ++ (consume g s a).2.k.dq.map (trunc g) = (consume g s a).2.sentD.map (trunc g)
             rw [List.append_nil]; exact hgoal
-          · refine ⟨fun _ => ?_, fun _ => c2, fun _ b h => by cases h⟩
+          · refine ⟨fun _ => ?_, fun _ => c2, fun _ b hx h => by cases h⟩
             show deqPairs (consume g s a).2 ++ [] ++ (consume g s a).2.k.dq.map (trunc g) = (consume g s a).2.sentD.map (trunc g)
             rw [List.append_nil]; exact hgoal
     · next v ht =>
       cases hs
-      obtain ⟨h1, h2, h3, h4, h5⟩ := taskRead_dgrams g s hu
+      obtain ⟨h1, h2, h3, h4, h5⟩ := taskRead_dgrams g s s.hup hu
       refine ⟨fun _ => ?_, fun _ => by rw [h3, h4]; exact hcalls, fun _ => h5⟩
       rw [h1, h2, ← ho]; simp [inflightD, ht]
 
